@@ -1031,8 +1031,8 @@ func (bits permission) String() string {
 	return string(perms)
 }
 
-func getFiletype(filetype string) (filetype, error) {
-	switch strings.ToLower(filetype) {
+func getFiletype(name string) (filetype, error) {
+	switch strings.ToLower(name) {
 	case "file":
 		return fileFiletype, nil
 	case "dir":
@@ -1048,7 +1048,15 @@ func getFiletype(filetype string) (filetype, error) {
 	case "fifo":
 		return fifoFiletype, nil
 	default:
-		return 0, fmt.Errorf("invalid filetype '%v'", filetype)
+		// Accept the numeric form that is used when displaying rules.
+		if num, err := parseNum(name); err == nil {
+			switch ft := filetype(num); ft {
+			case fileFiletype, dirFiletype, socketFiletype, linkFiletype,
+				characterFiletype, blockFiletype, fifoFiletype:
+				return ft, nil
+			}
+		}
+		return 0, fmt.Errorf("invalid filetype '%v'", name)
 	}
 }
 
